@@ -1,7 +1,7 @@
 /-
 C04 — property theorems (statements only; helper lemmas live in `Proofs/C04*.lean`).
 -/
-import Mahotas.Proofs.C04Sim
+import Mahotas.Proofs.C04Flood
 open Mahotas Mahotas.C04
 
 /-- **C04-T3 (the kernel is the specified flooding).** For every surface (any rank, shape, values),
@@ -49,6 +49,36 @@ theorem C04_delta_sound (s : List Nat) (p o : List Int) (hp : inside s p = true)
     ((ravelI s (addPos p o) : Nat) : Int) = (ravelI s p : Int) + posToFlat s o ∧
     (posToFlat s o = 0 → addPos p o = p) :=
   ⟨ravelI_addPos s p o hp hq, zero_delta_same s p o hp hq⟩
+
+/-- **C04-T4 (every region is connected to one of its own markers).** In the output of the kernel
+model every pixel with a non-zero label is joined to a marker pixel carrying that same label by a
+path of neighbourhood steps inside the image along which the label never changes. -/
+theorem C04_regions_connected (surf markers : Img Int) (bshape : List Nat) (bc : Array Int)
+    (hm : markers.shape = surf.shape) (hb : bshape.length = surf.shape.length) (p : List Int)
+    (hp : inside surf.shape p = true) (hl : (modelLabels surf markers bshape bc).getD p 0 ≠ 0) :
+    Joined surf.shape (offsets bshape bc) markers
+      (fun r => (modelLabels surf markers bshape bc).getD r 0) p := by
+  rw [modelLabels_eq surf markers bshape bc hm hb] at hl ⊢
+  exact (cwatershedSpec_inv surf markers bshape bc).joined p hp hl
+
+/-- **C04-T5a (markers keep their labels).** -/
+theorem C04_markers_keep_labels (surf markers : Img Int) (bshape : List Nat) (bc : Array Int)
+    (hm : markers.shape = surf.shape) (hb : bshape.length = surf.shape.length) (p : List Int)
+    (hp : inside surf.shape p = true) (hk : markers.getD p 0 ≠ 0) :
+    (modelLabels surf markers bshape bc).getD p 0 = markers.getD p 0 := by
+  rw [modelLabels_eq surf markers bshape bc hm hb]
+  exact (cwatershedSpec_inv surf markers bshape bc).keep p hp hk
+
+/-- **C04-T5b (pixels no marker can reach are 0).** A pixel that cannot be reached from any marker
+by neighbourhood steps inside the image has label 0 in the output of the kernel model (the output
+buffers start zero-filled, as repaired, and the flooding never writes such a pixel). -/
+theorem C04_unreached_zero (surf markers : Img Int) (bshape : List Nat) (bc : Array Int)
+    (hm : markers.shape = surf.shape) (hb : bshape.length = surf.shape.length) (p : List Int)
+    (hp : inside surf.shape p = true)
+    (hun : ¬ Reach surf.shape (offsets bshape bc) markers p) :
+    (modelLabels surf markers bshape bc).getD p 0 = 0 := by
+  by_contra hl
+  exact hun (C04_regions_connected surf markers bshape bc hm hb p hp hl).reach
 
 /-- non-vacuity: a 2×3 surface with two markers and the cross; both runs drain their queues -/
 example :
